@@ -1,6 +1,7 @@
 package main
 
 import (
+	"io"
 	"fmt"
 	"net/http"
 	"net/http/httptest"
@@ -28,7 +29,14 @@ type frontReq struct {
 	prefix      string
 	prefixSlash bool
 	bareRoot    bool
+	// the body is sent without a declared length (ContentLength -1, as with chunked transfer coding): not part of the
+	// descriptor either
+	unknownLen bool
 }
+
+type onlyReader struct{ r io.Reader }
+
+func (o onlyReader) Read(p []byte) (int, error) { return o.r.Read(p) }
 
 func (q frontReq) sx() string {
 	return sx("rq", q.srv, hx(q.method), itoa(q.level), b01(q.exists), q.ctype, q.body, q.depth, q.ow, q.dst)
@@ -222,6 +230,10 @@ func runFront(q frontReq, body string) string {
 	return guard(func() string {
 		req := httptest.NewRequest("GET", "http://example.com"+frontPath(q), strings.NewReader(body))
 		req.Method = q.method
+		if q.unknownLen {
+			req.ContentLength = -1
+			req.Body = io.NopCloser(onlyReader{strings.NewReader(body)})
+		}
 		frontHeaders(q, req.Header)
 		rec := httptest.NewRecorder()
 		mutated := false
@@ -264,6 +276,13 @@ func emitFront(o *Out, r *RNG, q frontReq) {
 	res := runFront(q, body)
 	o.Stat("front." + q.srv + "." + strings.Fields(res)[0])
 	o.Emit("srv.req", q.sx(), res)
+	if !q.unknownLen && (q.body == "empty" || q.body == "valid") {
+		// the same request with a body of undeclared length
+		q.unknownLen = true
+		res := runFront(q, body)
+		o.Stat("front.unknownlen." + strings.Fields(res)[0])
+		o.Emit("srv.req", q.sx(), res)
+	}
 }
 
 func famSrvFront(o *Out, r *RNG, thorough bool) {
@@ -439,6 +458,11 @@ func failError(kind string, card bool) error {
 		return caldav.NewPreconditionError(caldav.PreconditionNoUIDConflict)
 	}
 	var code int
+	if strings.HasPrefix(kind, "wrap") {
+		// an HTTP error wrapped by another layer of the backend carries the same status
+		fmt.Sscanf(kind, "wrap%d", &code)
+		return fmt.Errorf("storage layer: %w", webdav.NewHTTPError(code, fmt.Errorf("backend says no")))
+	}
 	fmt.Sscanf(kind, "http%d", &code)
 	return webdav.NewHTTPError(code, fmt.Errorf("backend says no"))
 }
@@ -520,7 +544,7 @@ func emitFail(o *Out, r *RNG, srv, method string, level int, depth, kind, report
 
 func famSrvFail(o *Out, r *RNG, thorough bool) {
 	for _, srv := range []string{"cal", "card"} {
-		for _, kind := range []string{"http403", "http404", "http409", "http423", "http507", "http503", "precond", "plain"} {
+		for _, kind := range []string{"http403", "http404", "http409", "http423", "http507", "http503", "wrap403", "wrap507", "precond", "plain"} {
 			for _, m := range []string{"OPTIONS", "GET", "HEAD", "PUT", "DELETE", "MKCOL", "PROPPATCH", "COPY"} {
 				for lvl := 0; lvl <= 4; lvl++ {
 					emitFail(o, r, srv, m, lvl, "absent", kind, "-")
